@@ -17,6 +17,14 @@ Ops (one text name each):
                  twice, every entry against the column in the same position
                  vs  TypeName.describe (the extracted lookup: by position / by name)
 
+  session      several RelationSchema objects, several frames over them (made directly or derived from another
+                 frame: head/slice/query/distinct/filter/take hand the schema object on), and steps in any order:
+                 read a frame's description, redeclare column i of a schema with another type name
+                 (schema.columns[i] = FlatColumn(name=<the same>, ...)), edit the type attributes of the column object in
+                 place, rename it (in place / by a column of another name), drop a frame (a later frame may get its address)
+                 vs  TypeName.session (description as a function of the schema as it is at the read; the read mode is
+                     extracted: Gen.TypeName.descRead)
+
 Oracle (evaluated on the implementation's own outputs, never on the model's):
   total     any text: a well-formed 5-tuple comes back, or ValueError - nothing else;
   exact     a name the generator built as a well-formed type name (label `expect`, re-validated from
@@ -39,6 +47,10 @@ Oracle (evaluated on the implementation's own outputs, never on the model's):
   frame     in a schema of several columns - whatever their names and aliases, collisions included - the
             description has one entry per column, entry i bears column i's name, and `typed` holds for
             entry i against column i; two calls give the same description.
+
+  session   every read of a session is judged like `frame`, against the columns of the frame's schema AS THEY ARE AT
+            THAT READ (observed just before the read): one entry per column, entry i bears column i's name, the type
+            code of entry i resolves back to column i's current type / precision / scale / element type.
 
 For non-ASCII names the oracle evaluates only `total` (Python's str.upper, \\d, \\s, \\w are Unicode-aware:
 'ınteger' and 'DECIMAL(١٠,٢)' resolve, consistently with the statement); the model (TypeName.fromNameU) is run
@@ -276,6 +288,111 @@ def impl_frame(case):
     return out
 
 
+DERIVE = {
+    "head": lambda f: f.head(),
+    "slice": lambda f: f.slice(0, 0),
+    "query": lambda f: f.query(lambda r: True),
+    "distinct": lambda f: f.distinct(),
+    "filter": lambda f: f.filter([]),
+    "take": lambda f: f.take([]),
+}
+TYPE_ATTRS = ("type", "length", "precision", "scale", "element_type")
+
+
+def _spec_kw(spec):
+    from orso.types import OrsoTypes
+
+    kw = {"type": OrsoTypes[spec["enum"]] if "enum" in spec else spec["type"]}
+    kw.update(_explicit_kw(spec))
+    return kw
+
+
+def impl_session(case):
+    """Frames over shared schemas, the schemas edited between reads.  Returns the reads (each with the columns as
+    they are just before the read) and the same session as the model's steps (with the attributes observed on the
+    columns the implementation declared)."""
+    from orso import DataFrame
+    from orso.schema import FlatColumn, RelationSchema
+
+    out = {"aborted": None, "reads": [], "schemas": [], "msteps": [], "id_reused": False}
+    schemas = []
+    with warnings.catch_warnings():
+        warnings.simplefilter("ignore")
+        for cols in case["schemas"]:
+            objs = []
+            for spec in cols:
+                try:
+                    objs.append(FlatColumn(name=spec["name"], aliases=list(spec.get("aliases") or []), **_spec_kw(spec)))
+                except Exception as e:
+                    out["aborted"] = "a column could not be declared (%s)" % _cls(e)
+                    return out
+            schemas.append(RelationSchema(name="t", columns=objs))
+            out["schemas"].append([[c.name, list(c.aliases or [])] + _five(c)[1:] for c in objs])
+        frames, over, dropped_ids = [], [], set()
+        for st in case["steps"]:
+            kind = st[0]
+            if kind in ("frame", "derive"):
+                j = st[1] if kind == "frame" else over[st[1]]
+                try:
+                    f = DataFrame(rows=[], schema=schemas[j]) if kind == "frame" else DERIVE[st[2]](frames[st[1]])
+                except Exception as e:
+                    out["aborted"] = "a frame could not be made (%s)" % _cls(e)
+                    return out
+                if f._schema is not schemas[j]:
+                    out["aborted"] = "a derived frame does not share its creator's schema object"
+                    return out
+                if id(f) in dropped_ids:
+                    out["id_reused"] = True
+                frames.append(f)
+                over.append(j)
+                out["msteps"].append(["frame", j])
+            elif kind == "drop":
+                dropped_ids.add(id(frames[st[1]]))
+                frames[st[1]] = None
+            elif kind in ("redeclare", "edit"):
+                _, j, i, spec = st
+                old = schemas[j].columns[i]
+                try:
+                    new = FlatColumn(name=old.name, aliases=list(old.aliases or []), **_spec_kw(spec))
+                except Exception as e:
+                    out["aborted"] = "a column could not be declared (%s)" % _cls(e)
+                    return out
+                if kind == "redeclare":
+                    schemas[j].columns[i] = new
+                else:
+                    for a in TYPE_ATTRS:
+                        setattr(old, a, getattr(new, a))
+                out["msteps"].append(["set", j, i] + _five(new)[1:])
+            elif kind == "rename":
+                _, j, i, nm, how = st
+                old = schemas[j].columns[i]
+                if how == "inplace":
+                    old.name = nm
+                else:
+                    schemas[j].columns[i] = FlatColumn(name=nm, aliases=list(old.aliases or []),
+                                                       **{a: getattr(old, a) for a in TYPE_ATTRS})
+                out["msteps"].append(["rename", j, i, nm])
+            else:  # read
+                k = st[1]
+                cols_now = schemas[over[k]].columns
+                rd = {"frame": k, "names": [c.name for c in cols_now], "cols": [_five(c) for c in cols_now],
+                      "desc": None, "back": None, "why": None}
+                out["msteps"].append(["read", k])
+                out["reads"].append(rd)
+                try:
+                    d = frames[k].description
+                except Exception as e:
+                    rd["why"] = "description raised " + _cls(e)
+                    continue
+                if not (isinstance(d, list) and all(isinstance(e, tuple) and len(e) == 7 for e in d)):
+                    rd["why"] = "description is not a list of 7-tuples"
+                    continue
+                rd["desc"] = [[e[0], e[1] if (e[1] is None or isinstance(e[1], str)) else {"__other__": repr(e[1])[:80]},
+                               _int(e[4]), _int(e[5])] for e in d]
+                rd["back"] = [impl_from_name(e[1]) if isinstance(e[1], str) else None for e in d]
+    return out
+
+
 def impl_column_enum(case):
     from orso.schema import FlatColumn
     from orso.types import OrsoTypes
@@ -510,27 +627,77 @@ def explicit_clause(case, out):
     return None
 
 
-def frame_clause(case, out):
-    cols = out["cols"]
+def entries_clause(names, cols, desc, back, why, stable=True):
+    """One description against the columns it describes (their names and observed attributes, in order)."""
     if any(c[0] != "ok" for c in cols):
         return None  # a column could not be declared: the `column` op deals with that
-    if out["desc"] is None:
+    if desc is None:
         if all(isinstance(c[1], str) for c in cols):
-            return "DataFrame.description of a schema of declared columns failed (%s)" % out["why"]
+            return "DataFrame.description of a schema of declared columns failed (%s)" % why
         return None  # a column whose type is the int 0 has no `.value`: not covered
-    desc = out["desc"]
     if len(desc) != len(cols):
         return "DataFrame.description does not have one entry per column"
-    for spec, e in zip(case["columns"], desc):
-        if e[0] != spec["name"]:
+    for n, e in zip(names or [], desc):
+        if e[0] != n:
             return "an entry of DataFrame.description does not bear the name of the column in its position"
-    if not out["stable"]:
+    if not stable:
         return "DataFrame.description differs between two calls on the same frame"
-    for c, e, back in zip(cols, desc, out["back"]):
-        one = [c, e[1] if isinstance(e[1], str) else None, back, "type code %r" % (e[1],)]
+    for c, e, b in zip(cols, desc, back):
+        one = [c, e[1] if isinstance(e[1], str) else None, b, "type code %r" % (e[1],)]
         clause = typed_column_clause(one)
         if clause:
             return "in a schema of several columns: " + clause
+    return None
+
+
+def frame_clause(case, out):
+    return entries_clause([sp["name"] for sp in case["columns"]], out["cols"], out["desc"], out["back"], out["why"], out["stable"])
+
+
+def session_steps_info(case):
+    """For every read of the session (in order): was the frame's schema edited since this frame was last read /
+    since any frame was last read; has the frame been read before."""
+    over, info = [], []
+    last_read = {}      # frame -> index of the step of its last read
+    last_edit = {}      # schema -> index of the step of its last edit
+    last_any_read = -1
+    for n, st in enumerate(case["steps"]):
+        if st[0] == "frame":
+            over.append(st[1])
+        elif st[0] == "derive":
+            over.append(over[st[1]])
+        elif st[0] in ("redeclare", "edit", "rename"):
+            last_edit[st[1]] = n
+        elif st[0] == "read":
+            k = st[1]
+            j = over[k]
+            info.append({"again_after_edit": k in last_read and last_edit.get(j, -1) > last_read[k],
+                         "again": k in last_read,
+                         "first_after_edit": k not in last_read and j in last_edit,
+                         "other_frame_read_between": k in last_read and last_any_read != last_read[k]})
+            last_read[k] = n
+            last_any_read = n
+    return info
+
+
+def session_clause(case, out):
+    if out["aborted"]:
+        return None
+    # a session that renames a column: column_names is kept per frame on the unchanged tree, so the name an entry
+    # bears may be the one from before the rename - observed, compared with the model, not demanded; the type
+    # codes are demanded as everywhere
+    renames = any(st[0] == "rename" for st in case["steps"])
+    for info, rd in zip(session_steps_info(case), out["reads"]):
+        clause = entries_clause(None if renames else rd["names"], rd["cols"], rd["desc"], rd["back"], rd["why"])
+        if clause:
+            clause = clause.replace("in a schema of several columns: ", "")
+            if info["again_after_edit"]:
+                return "description read again on a frame after a column of its schema was redeclared: " + clause
+            if info["again"]:
+                return "description read again on a frame: " + clause
+            if info["first_after_edit"]:
+                return "description of a frame whose schema was edited before its first read: " + clause
+            return "in a session of several frames: " + clause
     return None
 
 
@@ -542,6 +709,8 @@ def oracle(case, out):
         return typed_column_clause(out)
     if op == "frame":
         return frame_clause(case, out)
+    if op == "session":
+        return session_clause(case, out)
     name = case["name"]
     e = case.get("expect")
     if op == "column" and case.get("explicit"):
@@ -582,6 +751,76 @@ def _valid_explicit(x):
                for k in ("precision", "scale", "length"))
 
 
+def _valid_typespec(spec):
+    if not isinstance(spec, dict) or ("enum" in spec) == ("type" in spec):
+        return False
+    if "enum" in spec and spec["enum"] not in BASE + [UNTYPED_MEMBER]:
+        return False
+    if "type" in spec and not isinstance(spec["type"], str):
+        return False
+    if not _valid_explicit(spec):
+        return False
+    try:
+        spec.get("type", "").encode("utf-8")
+    except UnicodeEncodeError:
+        return False
+    return True
+
+
+def _valid_colspec(spec):
+    if not isinstance(spec, dict) or not isinstance(spec.get("name"), str):
+        return False
+    al = spec.get("aliases", [])
+    if not isinstance(al, list) or not all(isinstance(a, str) for a in al):
+        return False
+    if not _valid_typespec({k: v for k, v in spec.items() if k not in ("name", "aliases")}):
+        return False
+    try:
+        (spec["name"] + "".join(al)).encode("utf-8")
+    except UnicodeEncodeError:
+        return False
+    return True
+
+
+def _valid_session(c):
+    """Schemas of valid columns; steps that refer to schemas / columns / live frames that exist."""
+    schemas, steps = c.get("schemas"), c.get("steps")
+    if not isinstance(schemas, list) or not isinstance(steps, list) or len(schemas) > 20 or len(steps) > 400:
+        return False
+    for cols in schemas:
+        if not isinstance(cols, list) or len(cols) > 60 or not all(_valid_colspec(sp) for sp in cols):
+            return False
+    live = []
+
+    def nat(x, bound):
+        return isinstance(x, int) and not isinstance(x, bool) and 0 <= x < bound
+
+    for st in steps:
+        if not isinstance(st, list) or not st:
+            return False
+        k = st[0]
+        if k == "frame" and len(st) == 2 and nat(st[1], len(schemas)):
+            live.append(True)
+        elif k == "derive" and len(st) == 3 and nat(st[1], len(live)) and live[st[1]] and st[2] in DERIVE:
+            live.append(True)
+        elif k == "drop" and len(st) == 2 and nat(st[1], len(live)) and live[st[1]]:
+            live[st[1]] = False
+        elif k == "read" and len(st) == 2 and nat(st[1], len(live)) and live[st[1]]:
+            pass
+        elif k in ("redeclare", "edit") and len(st) == 4 and nat(st[1], len(schemas)) and nat(st[2], len(schemas[st[1]])) \
+                and _valid_typespec(st[3]):
+            pass
+        elif k == "rename" and len(st) == 5 and nat(st[1], len(schemas)) and nat(st[2], len(schemas[st[1]])) \
+                and isinstance(st[3], str) and st[4] in ("inplace", "replace"):
+            try:
+                st[3].encode("utf-8")
+            except UnicodeEncodeError:
+                return False
+        else:
+            return False
+    return True
+
+
 def valid_case(c):
     if isinstance(c, dict) and c.get("op") == "column_enum":
         if c.get("type") not in BASE + [UNTYPED_MEMBER]:
@@ -600,25 +839,9 @@ def valid_case(c):
         cols = c.get("columns")
         if not isinstance(cols, list) or len(cols) > 200 or c.get("via") not in (None, "from_dict"):
             return False
-        for spec in cols:
-            if not isinstance(spec, dict) or not isinstance(spec.get("name"), str):
-                return False
-            al = spec.get("aliases", [])
-            if not isinstance(al, list) or not all(isinstance(a, str) for a in al):
-                return False
-            if ("enum" in spec) == ("type" in spec):
-                return False
-            if "enum" in spec and spec["enum"] not in BASE + [UNTYPED_MEMBER]:
-                return False
-            if "type" in spec and not isinstance(spec["type"], str):
-                return False
-            if not _valid_explicit(spec):
-                return False
-            try:
-                (spec["name"] + "".join(al) + spec.get("type", "")).encode("utf-8")
-            except UnicodeEncodeError:
-                return False
-        return True
+        return all(_valid_colspec(spec) for spec in cols)
+    if isinstance(c, dict) and c.get("op") == "session":
+        return _valid_session(c)
     if not isinstance(c, dict) or c.get("op") not in ("from_name", "column") or not isinstance(c.get("name"), str):
         return False
     if "explicit" in c:
@@ -676,6 +899,8 @@ def run_impl(c):
         return impl_column_arrow(c)
     if c["op"] == "frame":
         return impl_frame(c)
+    if c["op"] == "session":
+        return impl_session(c)
     return impl_from_name(c["name"]) if c["op"] == "from_name" else impl_column(c["name"], c.get("explicit"))
 
 
@@ -771,6 +996,83 @@ def evaluate_frames(ctx, cases):
             ctx.disagree(c, out, m)
 
 
+def _strings(x, acc):
+    if isinstance(x, str):
+        acc.add(x)
+    elif isinstance(x, dict):
+        for v in x.values():
+            _strings(v, acc)
+    elif isinstance(x, (list, tuple)):
+        for v in x:
+            _strings(v, acc)
+    return acc
+
+
+def evaluate_sessions(ctx, cases):
+    outs = [run_impl(c) for c in cases]
+    idx, lines = [], []
+    for i, (c, out) in enumerate(zip(cases, outs)):
+        if out["aborted"]:
+            continue
+        flat = [x for sc in out["schemas"] for col in sc for x in col[2:]] + \
+               [x for st in out["msteps"] if st[0] == "set" for x in st[3:]]
+        if any(isinstance(x, dict) for x in flat):
+            continue
+        idx.append(i)
+        lines.append("C06 session " + wire.line(out["schemas"], out["msteps"]))
+    mouts = dict(zip(idx, ctx.model.batch(lines)))
+    for i, (c, out) in enumerate(zip(cases, outs)):
+        info = session_steps_info(c)
+        ctx.case(c, nontrivial=len(info) > 0)
+        ctx.hit("op:session")
+        if out["aborted"]:
+            ctx.hit("session-outcome:aborted (%s)" % out["aborted"])
+        else:
+            kinds = {st[0] for st in c["steps"]}
+            n_frames = sum(1 for st in c["steps"] if st[0] in ("frame", "derive"))
+            ctx.hit("session-frames:" + (str(n_frames) if n_frames < 4 else "4+"))
+            ctx.hit("session-reads:" + (str(len(info)) if len(info) < 4 else "4-9" if len(info) < 10 else "10+"))
+            ctx.hit("session-schemas:" + str(min(len(c["schemas"]), 3)) + ("+" if len(c["schemas"]) >= 3 else ""))
+            for key in ("again_after_edit", "again", "first_after_edit", "other_frame_read_between"):
+                n = sum(1 for x in info if x[key])
+                if n:
+                    ctx.hit("session-read:" + key.replace("_", "-"), n)
+            stale = sum(1 for rd in out["reads"] if rd["desc"] is not None and [e[0] for e in rd["desc"]] != rd["names"])
+            if stale:
+                ctx.hit("session-read:entry-bears-the-name-from-before-a-rename (observed, not judged)", stale)
+            for kd in ("redeclare", "edit", "derive", "drop", "rename"):
+                if kd in kinds:
+                    ctx.hit("session-with:" + kd)
+            if out["id_reused"]:
+                ctx.hit("session:new-frame-at-the-address-of-a-dropped-one")
+            if len(c["schemas"]) > 1 and any(c["schemas"][a] == c["schemas"][b] for a in range(len(c["schemas"]))
+                                             for b in range(a)):
+                ctx.hit("session:schemas-of-equal-content")
+            if not any(x["again_after_edit"] or x["first_after_edit"] for x in info):
+                ctx.hit("session:no-read-after-an-edit (control)")
+        clause = oracle(c, out)
+        m = None
+        if i in mouts:
+            ctx.hit("compared-with-model")
+            if not mouts[i].startswith("ok "):
+                raise InfraError("model rejected case %r: %r" % (c, mouts[i]))
+            m = wire.dec_all(mouts[i][3:])[0]
+        if clause is not None:
+            c_min = c
+            if not ctx.replaying:
+                words = _strings(c, set())
+
+                def still(c2):
+                    # names and type names stay whole: a replay should read like a session on a schema
+                    if not (valid_case(c2) and c2.get("op") == "session") or _strings(c2, set()) - words:
+                        return False
+                    return oracle(c2, run_impl(c2)) == clause
+                c_min = shrink(c, still, budget=600)
+            ctx.fail(c_min, clause, impl=run_impl(c_min), model=m if c_min is c else None)
+        elif m is not None and not wire.same(_plain([rd["desc"] for rd in out["reads"]]), _plain(m)):
+            ctx.disagree(c, out, m)
+
+
 def evaluate(ctx, cases):
     for c in cases:
         if not valid_case(c):
@@ -781,6 +1083,9 @@ def evaluate(ctx, cases):
     frames = [c for c in cases if c["op"] == "frame"]
     if frames:
         evaluate_frames(ctx, frames)
+    sessions = [c for c in cases if c["op"] == "session"]
+    if sessions:
+        evaluate_sessions(ctx, sessions)
     cases = [c for c in cases if c["op"] in ("from_name", "column")]
     idx, lines = [], []
     for i, c in enumerate(cases):
@@ -972,6 +1277,8 @@ def exhaustive_cases(ctx):
     yield from explicit_cases(thorough)
     # 9. schemas of several columns whose names and aliases collide in every way
     yield from frame_cases(thorough)
+    # 10. sessions: frames over shared schemas, columns redeclared between reads of description
+    yield from session_cases(thorough)
 
 
 ARROW_SPECS = ["int8", "int32", "int64", "uint16", "float32", "float64", "bool", "string", "large_string", "binary", "date32",
@@ -1111,6 +1418,117 @@ def frame_cases(thorough):
         yield {"op": "frame", "columns": [_col("k", [], tys[i]) for i in range(n)]}
 
 
+# the type forms a column is declared / redeclared with in a session: every base name, the parameterised names the
+# statement lists (DECIMAL(p,s) at its boundaries, VARCHAR[n], BLOB[n], ARRAY<T>), in several letter cases, the aliases
+# that resolve, and OrsoTypes members with explicit parameters
+SESSION_TYPES = [{"type": b} for b in BASE] + [
+    {"type": "DECIMAL(10,2)"}, {"type": "decimal(38,0)"}, {"type": "Decimal(38,38)"}, {"type": "DECIMAL(0,0)"}, {"type": "DECIMAL(1,1)"},
+    {"type": "VARCHAR[12]"}, {"type": "varchar[0]"}, {"type": "BLOB[3]"}, {"type": "ARRAY<INTEGER>"}, {"type": "array<varchar>"},
+    {"type": "ARRAY<TIMESTAMP>"}, {"type": "Array<Blob>"}, {"type": "LIST"}, {"type": "NUMERIC"}, {"type": "BSON"}, {"type": "integer"},
+    {"enum": "DECIMAL", "precision": 0}, {"enum": "DECIMAL", "precision": 7, "scale": 7}, {"enum": "ARRAY", "element_type": "DATE"},
+    {"enum": "ARRAY"}, {"enum": "VARCHAR", "length": 0}]
+SESSION_FEW = [{"type": "INTEGER"}, {"type": "DECIMAL(10,2)"}, {"type": "DECIMAL(38,0)"}, {"type": "ARRAY<TIMESTAMP>"},
+               {"type": "array<integer>"}, {"type": "varchar[12]"}, {"enum": "DECIMAL", "precision": 0}, {"type": "LIST"}]
+
+
+def _sess(schemas, steps):
+    return {"op": "session", "schemas": schemas, "steps": steps}
+
+
+def session_cases(thorough):
+    """Sessions: (1) one frame, read - redeclare - read, for every ordered pair of type forms, by replacement and by
+    editing the column object in place; (2) for a few type forms, every shape of session this file knows."""
+    for t0 in SESSION_TYPES:
+        for t1 in SESSION_TYPES:
+            if t0 == t1:
+                continue
+            for how in ("redeclare", "edit"):
+                yield _sess([[_col("amount", [], t0)]], [["frame", 0], ["read", 0], [how, 0, 0, t1], ["read", 0]])
+    few = SESSION_TYPES if thorough else SESSION_FEW
+    for a in few:
+        for b in few:
+            if a == b:
+                continue
+            c = few[(few.index(a) + few.index(b) + 1) % len(few)]
+            one = [[_col("a", [], a)]]
+            for how in ("redeclare", "edit"):
+                # controls: one read only; never edited; edited before the only read
+                yield _sess(one, [["frame", 0], [how, 0, 0, b], ["read", 0]])
+                yield _sess(one, [["frame", 0], ["read", 0], ["read", 0], ["read", 0]])
+                # read many times, redeclared twice, and back to the first declaration
+                yield _sess(one, [["frame", 0], ["read", 0], ["read", 0], [how, 0, 0, b], ["read", 0], ["read", 0], [how, 0, 0, c],
+                                  [how, 0, 0, a], ["read", 0], [how, 0, 0, b], ["read", 0]])
+                # two frames over one schema object, read alternately
+                yield _sess(one, [["frame", 0], ["frame", 0], ["read", 0], ["read", 1], [how, 0, 0, b], ["read", 0], ["read", 1],
+                                  [how, 0, 0, c], ["read", 1], ["read", 0]])
+                # two schema objects of equal content, a frame over each; only one is edited
+                yield _sess([[_col("a", [], a)], [_col("a", [], a)]],
+                            [["frame", 0], ["frame", 1], ["read", 0], ["read", 1], [how, 1, 0, b], ["read", 0], ["read", 1],
+                             ["read", 1], [how, 0, 0, c], ["read", 1], ["read", 0]])
+                # another frame read in between (a single-entry cache forgets; a per-frame one does not)
+                yield _sess([[_col("a", [], a)], [_col("z", [], c)]],
+                            [["frame", 0], ["frame", 1], ["read", 0], [how, 0, 0, b], ["read", 1], ["read", 0]])
+                # a dropped frame and a new one (which may get the address of the dropped one)
+                yield _sess(one, [["frame", 0], ["read", 0], ["drop", 0], [how, 0, 0, b], ["frame", 0], ["read", 1], ["drop", 1],
+                                  ["frame", 0], [how, 0, 0, c], ["read", 2]])
+                # several columns, names and aliases colliding; the middle / last / first column redeclared
+                cols3 = [_col("a", ["b"], a), _col("b", ["a"], c), _col("a", [], a)]
+                for i in range(3):
+                    yield _sess([cols3], [["frame", 0], ["read", 0], [how, 0, i, b], ["read", 0], [how, 0, (i + 1) % 3, b], ["read", 0]])
+            # a column renamed between reads (the kept column_names of a frame goes stale; the type codes must not)
+            for how in ("inplace", "replace"):
+                yield _sess(one, [["frame", 0], ["read", 0], ["rename", 0, 0, "z", how], ["read", 0], ["redeclare", 0, 0, b], ["read", 0]])
+                yield _sess([[_col("a", ["z"], a), _col("z", ["a"], c)]],
+                            [["frame", 0], ["frame", 0], ["read", 0], ["rename", 0, 0, "z", how], ["read", 0], ["read", 1], ["read", 0],
+                             ["edit", 0, 1, b], ["rename", 0, 1, "a", how], ["read", 0], ["read", 1]])
+            # frames derived from a frame hand the schema object on
+            for d in DERIVE:
+                yield _sess(one, [["frame", 0], ["derive", 0, d], ["read", 1], ["redeclare", 0, 0, b], ["read", 1], ["read", 0],
+                                  ["derive", 1, d], ["edit", 0, 0, c], ["read", 2], ["read", 1]])
+
+
+def random_session(rng):
+    pool = SESSION_TYPES + FRAME_TYPES[:19]
+    names = ["a", "b", "c", "A", "é", "k"]
+    schemas = []
+    for _ in range(rng.choice([1, 1, 2, 2, 3])):
+        if schemas and rng.random() < 0.4:
+            schemas.append([dict(sp) for sp in schemas[-1]])      # equal content, another object
+            continue
+        schemas.append([_col(rng.choice(names), [rng.choice(names) for _ in range(rng.choice([0, 0, 1]))], dict(rng.choice(pool)))
+                        for _ in range(rng.choice([1, 1, 2, 3, 5]))])
+    steps, live, n_frames = [], [], 0
+    with_renames = rng.random() < 0.3
+    for _ in range(rng.choice([3, 5, 8, 12, 20, 40])):
+        r = rng.random()
+        alive = [k for k in range(n_frames) if live[k]]
+        if not alive or r < 0.12:
+            if alive and rng.random() < 0.4:
+                steps.append(["derive", rng.choice(alive), rng.choice(sorted(DERIVE))])
+            else:
+                steps.append(["frame", rng.randrange(len(schemas))])
+            live.append(True)
+            n_frames += 1
+        elif r < 0.55:
+            steps.append(["read", rng.choice(alive)])
+        elif r < 0.92:
+            j = rng.randrange(len(schemas))
+            if rng.random() < 0.3:
+                p = rng.randint(0, MAX_P)
+                ty = {"type": "DECIMAL(%d,%d)" % (p, rng.randint(0, p))}
+            else:
+                ty = dict(rng.choice(pool))
+            steps.append([rng.choice(["redeclare", "edit"]), j, rng.randrange(len(schemas[j])), ty])
+        elif r < 0.96 and with_renames:
+            j = rng.randrange(len(schemas))
+            steps.append(["rename", j, rng.randrange(len(schemas[j])), rng.choice(names + ["z", ""]), rng.choice(["inplace", "replace"])])
+        else:
+            k = rng.choice(alive)
+            steps.append(["drop", k])
+            live[k] = False
+    return _sess(schemas, steps)
+
+
 def random_frame(rng):
     pool = ["a", "b", "c", "A", "é", "", "k"]
     n = rng.choice([1, 2, 2, 3, 3, 4, 6, 9])
@@ -1241,6 +1659,9 @@ def random_cases(ctx, n):
         if i % 25 in (7, 19):
             out.append(random_frame(ctx.rng))
             continue
+        if i % 25 == 13:
+            out.append(random_session(ctx.rng))
+            continue
         if i % 50 == 3:
             x = {k: v for k, v in (("precision", ctx.rng.choice([None, 0, 5, 38])), ("scale", ctx.rng.choice([None, 0, 5])),
                                     ("length", ctx.rng.choice([None, None, 0, 9])),
@@ -1316,6 +1737,8 @@ def run(ctx):
         "lengths n are rendered with at most sys.get_int_max_str_digits() digits (CPython's int() refuses longer digit strings with ValueError)",
         "non-ASCII names: the oracle evaluates the totality clause only (labels are ASCII); the model runs over the interpreter's own "
         "Unicode tables (per-character upper(), \\d/\\s/\\w membership, decimal value), whose sanity (Chars.Sane) is checked at run time",
+        "sessions: a redeclaration keeps the column's name and the number of columns; every read is judged against the columns "
+        "of the frame's schema as observed just before that read",
     ])
     ctx.note("trusted_base_extra", [
         "the vocabulary definitions TName/render/wfName/denotes/wfOut/columnRoundTrips/Chars/Chars.Sane in lean/OrsoVerif/Model/TypeName.lean "
@@ -1323,7 +1746,8 @@ def run(ctx):
         "modelled, validated by correspondence only: that Python's re computes the greedy, backtrack-free match of a pattern whose repeats "
         "cannot take a character the next item needs (the patterns themselves are parsed from the source with re._parser and interpreted; "
         "patterns_deterministic proves the side condition), str.upper as a per-character map, int() on a run of \\d characters, "
-        "the FlatColumn constructor outside its merge block, DataFrame.column_names",
+        "the FlatColumn constructor outside its merge block; single_item_cache (tools.py) as one entry per decorated function, compared by "
+        "the frame object (modelled as Sess.kept / Sess.keptNames; which properties carry it is read from the source)",
     ])
     check_tables(ctx)
     check_unicode_assumptions(ctx)
@@ -1332,8 +1756,12 @@ def run(ctx):
     ctx.note("exhaustive_scope", "every letter-case pattern of the %d base names; aliases; DECIMAL(p,s) for (p,s) in 0..45 x 0..45; "
              "VARCHAR[n]/BLOB[n] for n in 0..300 and %d boundary widths up to the int() digit limit; ARRAY<T> for %d element texts; "
              "every ASCII character in 18 pattern positions; every OrsoTypes member declared as the enum with/without element type "
-             "and length, every in-range (precision, scale); %d Arrow field types (%d cases), then random"
-             % (len(BASE), len(boundary_widths()) - 301, len(BASE + ALIASES + ELEMENTS_EXTRA), len(ARROW_SPECS), total))
+             "and length, every in-range (precision, scale); %d Arrow field types; sessions: read - redeclare - read for every "
+             "ordered pair of %d type forms, by replacement and by in-place edit, and every session shape (frames read alternately, "
+             "schemas of equal content, derived frames, dropped frames, several columns, controls) over %d type forms "
+             "(%d cases), then random"
+             % (len(BASE), len(boundary_widths()) - 301, len(BASE + ALIASES + ELEMENTS_EXTRA), len(ARROW_SPECS),
+                len(SESSION_TYPES), len(SESSION_TYPES) if ctx.tier == "thorough" else len(SESSION_FEW), total))
     n_random = ctx.scale(50000, 1000000)
     done = 0
     while done < n_random and ctx.time_left() > 5:
